@@ -44,8 +44,25 @@ def programs(tier):
     return sorted(set(reg[::2] + special)) + a1 + extra
 
 
+def sweep_programs(tier):
+    """schema-only sweep: the first (quick) / every (thorough) non-f64 testcase of every registered
+    component, so that an operator newer than the requested opset cannot hide behind the sampling"""
+    reg = corpus.registry_ids(include_f64=False)
+    if tier != "quick":
+        return reg
+    first = {}
+    for i in reg:
+        first.setdefault("/".join(i.split("/")[:3]), i)
+    return sorted(first.values())
+
+
 def list_jobs(tier):
-    return [f"{o}|{p}" for p in programs(tier) for o in opsets(tier)]
+    full = programs(tier)
+    fs = set(full)
+    jobs = [f"{o}|{p}" for p in full for o in opsets(tier)]
+    sw = opsets(tier) if tier != "quick" else [21, 23]
+    jobs += [f"S{o}|{p}" for p in sweep_programs(tier) if p not in fs for o in sw]
+    return jobs
 
 
 def options(tier, selfcheck=True):
@@ -165,7 +182,8 @@ def schema_problems(model, declared):
 
 def run_job(job, tier):
     o, pid = job.split("|", 1)
-    o = int(o)
+    schema_only = o.startswith("S")
+    o = int(o.lstrip("S"))
     try:
         prog = c01.get_program(pid)
     except corpus.OutOfBound as e:
@@ -174,10 +192,12 @@ def run_job(job, tier):
         pass  # the testcase asks for a newer opset; exporting at an older one must still be honest
     prog.config = dict(prog.config, opset=o)
     shapes = prog.concrete_shapes()
-    try:
-        cj = pipeline.trace_reference(prog, shapes)
-    except Exception as e:
-        return {"job": job, "status": "reference_failed", "reason": f"{type(e).__name__}: {str(e)[:120]}"}
+    cj = None
+    if not schema_only:
+        try:
+            cj = pipeline.trace_reference(prog, shapes)
+        except Exception as e:
+            return {"job": job, "status": "reference_failed", "reason": f"{type(e).__name__}: {str(e)[:120]}"}
     try:
         model = pipeline.export(prog)
     except Exception as e:
@@ -196,6 +216,8 @@ def run_job(job, tier):
             ops = sorted({p.split(": ", 1)[1].split(" ")[0] for p in probs if ": " in p})
             return {"job": job, "status": "violation", "kind": "schema", "opset": o, "ops": ops, "witness": {"why": "; ".join(probs[:4]), "checker": cerr if confirmed else "accepts"}}
         return {"job": job, "status": "harness_error", "reason": "encoder refused a model the ONNX checker accepts: " + "; ".join(probs[:3])}
+    if schema_only:
+        return {"job": job, "status": "schema_ok", "opset": o, "schema_ok": True}
     try:
         r = pipeline.validate(prog, cj, model, shapes, options(tier, selfcheck=(o <= ORT_MAX)))
     except (pipeline.NotEncodable, pipeline.DomainError) as e:
@@ -226,9 +248,13 @@ def main(tier):
     # a schema/type problem present at EVERY tested opset is not an opset matter (C03 reports it)
     sch = {}
     for r in results:
-        if r.get("status") == "violation" and r.get("kind") == "schema":
+        if r.get("status") == "violation" and r.get("kind") == "schema" and "does not exist at opset" not in str((r.get("witness") or {}).get("why")):
             sch.setdefault((common.base_pid(r["job"].split("|", 1)[1]), tuple(r.get("ops") or [])), set()).add(r.get("opset"))
-    everywhere = {k for k, v in sch.items() if v >= set(opsets(tier))}
+    ran = {}
+    for r in results:
+        if r.get("opset") is not None and "|" in str(r.get("job")):
+            ran.setdefault(common.base_pid(r["job"].split("|", 1)[1]), set()).add(r.get("opset"))
+    everywhere = {k for k, v in sch.items() if v >= ran.get(k[0], set(opsets(tier)))}
     for r in results:
         if r.get("status") == "violation" and r.get("kind") == "schema" and (common.base_pid(r["job"].split("|", 1)[1]), tuple(r.get("ops") or [])) in everywhere:
             not_opset_specific.add(common.base_pid(r["job"].split("|", 1)[1]) + " " + ",".join(r.get("ops") or []))
